@@ -526,3 +526,58 @@ def r4_cache_key(ck, P):
         ck.ok(R, 'cache object is thread-local')
     else:
         ck.violation(R, f.name, 'cache object', 'the fast-path cache is not thread-local', f.unit.name)
+
+
+def r15_pixbuf_substitution(ck, P):
+    """the pixbuf formats stand for "mask is the alpha channel of the very pixel the source reads"""
+    R = ck.rule('C02-R15', 'the pseudo-formats PIXMAN_pixbuf / PIXMAN_rpixbuf are substituted only when source and mask read the same pixels: same bits pointer, same repeat, both untransformed, and the same x and y offsets (the pixbuf fast paths read the alpha out of the source pixel itself)', floor=2)
+    C = consts.fast_path_flags()
+    f = P.fn('pixman_image_composite32', required=False)
+    if f is None:
+        ck.incomplete(R, 'pixman_image_composite32 not found'); return
+    ck.saw(f)
+    pn = [p[0] for p in f.params]
+    want_pairs = {('src_x', 'mask_x'), ('src_y', 'mask_y')}
+    n = 0
+    for x in f.insts():
+        if x.op != 'phi' or x.ty != 'i32':
+            continue
+        for a, bb in zip(x.a, x.d['bb']):
+            if a[0] != 'c' or (int(a[1]) & 0xffffffff) not in (C['PIXMAN_pixbuf'] & 0xffffffff, C['PIXMAN_rpixbuf'] & 0xffffffff):
+                continue
+            n += 1
+            have = set(); bits = False; repeat = False; idt = False
+            for t, s_ in f.guard_edges(bb) | ({(f.blocks[bb].term, x.bb.id)} if f.blocks[bb].term.a else set()):
+                if t.op != 'br' or not t.a:
+                    continue
+                c, pred, ops = f.cond(t.a[0])
+                if c is None or c.op != 'icmp':
+                    continue
+                taken = t.d['succ'][0] == s_
+                if (pred == 'eq') != taken and pred in ('eq', 'ne'):
+                    if not (pred == 'ne' and not taken):
+                        continue
+                if pred not in ('eq', 'ne'):
+                    continue
+                sides = [f.strip_casts(o) for o in ops]
+                if all(o[0] == 'a' for o in sides):
+                    have.add(tuple(sorted((pn[sides[0][1]], pn[sides[1][1]]), reverse=True)))
+                ats = f.atoms(t.a[0])
+                if ('field', 'bits_image.bits') in ats:
+                    bits = True
+                if ('field', 'image_common.repeat') in ats:
+                    repeat = True
+                if ('const', C['FAST_PATH_ID_TRANSFORM']) in ats or any(a_[0] == 'const' and isinstance(a_[1], int) and a_[1] & C['FAST_PATH_ID_TRANSFORM'] == C['FAST_PATH_ID_TRANSFORM'] for a_ in ats):
+                    idt = True
+            have = {tuple(sorted(p_)) for p_ in have}
+            missing = [('%s == %s' % p_) for p_ in want_pairs if tuple(sorted(p_)) not in have]
+            if not bits:
+                missing.append('same bits pointer')
+            if not repeat:
+                missing.append('same repeat')
+            if missing:
+                ck.violation(R, f.name, 'guards of the pixbuf substitution', 'pixman_image_composite32 substitutes a pixbuf pseudo-format without testing %s: the pixbuf fast paths take the mask alpha from the source pixel, which is a different pixel when the two images are offset against each other' % ', '.join(missing), x.loc())
+            else:
+                ck.ok(R, 'pixbuf substitution (0x%x) guarded by equal bits, repeat and offsets' % (int(a[1]) & 0xffffffff))
+    if n == 0:
+        ck.incomplete(R, 'no substitution of a pixbuf pseudo-format found')
